@@ -251,6 +251,32 @@ func (c *Ctx) CheckSites(rule string, fn *ssa.Function, specs []SiteSpec) {
 	}
 }
 
+// DumpSpecs prints SiteSpec literals (exact guards) for the sites of fn whose
+// target contains one of the given substrings (rule authoring aid; every
+// printed entry is reviewed and given a Why before it is frozen).
+func (p *Program) DumpSpecs(fn *ssa.Function, targets []string) {
+	fmt.Printf("\t// %s\n", FuncName(fn))
+	for _, s := range Sites(fn) {
+		ok := false
+		for _, t := range targets {
+			if t != "" && (strings.Contains(s.Target, t) || (s.Kind == t)) {
+				ok = true
+			}
+		}
+		if !ok {
+			continue
+		}
+		q := func(ss []string) string {
+			var o []string
+			for _, x := range ss {
+				o = append(o, fmt.Sprintf("%q", x))
+			}
+			return strings.Join(o, ", ")
+		}
+		fmt.Printf("\t\t{Kind: %q, Target: %q, Args: []string{%s}, Guards: []string{%s}, Exact: true, N: 1, Why: \"\"},\n", s.Kind, s.Target, q(s.Args), q(s.Guards))
+	}
+}
+
 // DumpSites prints all sites of a function in SiteSpec literal form (rule authoring aid).
 func (p *Program) DumpSites(fn *ssa.Function) {
 	fmt.Printf("== %s\n", FuncName(fn))
